@@ -61,3 +61,22 @@ def swapped_names(call, func, bound):
         if a != p and a in got and got[a] == p:
             out.append((p, a))
     return out
+
+
+def bind_args(call, func):
+    """{parameter name of func: argument expression} for a call (self/cls skipped for methods; defaults filled in)"""
+    params = list(func.params)
+    if params and params[0] in ("self", "cls") and not func.is_static:
+        params = params[1:]
+    out = {}
+    for i, a in enumerate(call.args):
+        if isinstance(a, ast.Starred):
+            raise AnalysisError("call with * arguments cannot be bound statically: %s" % norm(call)[:60])
+        if i < len(params):
+            out[params[i]] = a
+    for k in call.keywords:
+        if k.arg:
+            out[k.arg] = k.value
+    for name, d in func.defaults().items():
+        out.setdefault(name, d)
+    return out
